@@ -59,7 +59,7 @@ func runC12(e *Engine, g G, o RunOpt) RunInfo {
 	default:
 		n = g.Range("n", 0, 5)
 	}
-	sc.Inbound = GenInbound(g, n, InboundOpts{AllowSpace: true, AllowEntity: true, AllowNested: !o.Avoiding("nested-same-name"), IDPrefix: "in", AllowBig: sc.Preset == 1})
+	sc.Inbound = GenInbound(g, n, InboundOpts{AllowSpace: true, AllowEntity: true, AllowNested: true, IDPrefix: "in", AllowBig: sc.Preset == 1, AllowR: true})
 	var total int64
 	if n > 0 {
 		total = sc.Inbound[n-1].End
